@@ -22,20 +22,38 @@ from .smt import VNone, Val, fresh
 from .values import SV, SeqView, sv_ref
 
 
-def _merge(eng, base_len, results):
+def split_pc(st, base_len, guard):
+    """entries of st.pc from base_len on -> (path condition = the branch conditions, facts).  A fact holds
+    whenever the branch conditions recorded before it hold, so it is returned guarded by them."""
+    conds, facts = [], []
+    for e in st.pc[base_len:]:
+        if e.get_id() in st.branches:
+            conds.append(e)
+        else:
+            facts.append(z3.Implies(z3.And(guard, *conds), e) if conds or guard is not None else e)
+    return (z3.And(conds) if conds else z3.BoolVal(True)), facts
+
+
+def _merge(eng, base_len, results, hoisted=None, guard=None):
     """results: [(value, state)] of a pure evaluation; -> (term of sort Val, static type)"""
     if not results:
         return None, None
     vals = []
     for v, s in results:
         v = eng.as_val(s, v)
-        extra = s.pc[base_len:]
-        vals.append((z3.And(extra) if extra else z3.BoolVal(True), v))
+        cond, facts = split_pc(s, base_len, guard if guard is not None else z3.BoolVal(True))
+        if hoisted is not None:
+            hoisted.extend(facts)
+        vals.append((cond, v))
     term = vals[-1][1].t
     for c, v in reversed(vals[:-1]):
         term = z3.If(c, v.t, term)
     tys = {v.ty for _, v in vals}
     return term, (tys.pop() if len(tys) == 1 else None)
+
+
+class _NeedsLoop(Exception):
+    pass
 
 
 def comprehension(eng, e, st, kind):
@@ -44,11 +62,48 @@ def comprehension(eng, e, st, kind):
     gen = e.generators[0]
     if gen.is_async:
         raise Unsupported("async comprehension")
+    label = eng.comp_ids.get(id(e))
+    has_spec = eng.contract is not None and label in eng.contract.loops
+    if has_spec and kind == "list" and not eng.spec:
+        return as_loop(eng, e, gen, st, label)
     out = []
     for itv, s in eng.ev(gen.iter, st):
         view = itv if isinstance(itv, SeqView) else eng.seq_of(s, itv)
         out += _one(eng, e, gen, view, s, kind)
     return out
+
+
+def as_loop(eng, e, gen, st, label):
+    """a list comprehension whose body allocates or calls contracted functions: executed as the loop
+         _acc = [] ; for x in it: [if c:] _acc.append(elt)
+    under the invariant the sidecar gives for `comp#k` (which may mention _acc and _i)"""
+    src = f"for _t in _it:\n    pass\n"
+    loop = ast.parse(src).body[0]
+    loop.target = gen.target
+    loop.iter = gen.iter
+    app = ast.Expr(ast.Call(func=ast.Attribute(value=ast.Name(id="_acc", ctx=ast.Load()), attr="append", ctx=ast.Load()),
+                            args=[e.elt], keywords=[]))
+    body = [app]
+    for c in reversed(gen.ifs):
+        body = [ast.If(test=c, body=body, orelse=[])]
+    loop.body = body
+    ast.copy_location(loop, e)
+    for n in ast.walk(loop):
+        if not hasattr(n, "lineno"):
+            ast.copy_location(n, e)
+    ast.fix_missing_locations(loop)
+    eng.loop_ids[id(loop)] = label
+    eng._synth = getattr(eng, "_synth", []) + [loop]       # keep the node alive (ids are reused otherwise)
+    s = st
+    s.env.vars["_acc"] = eng.new_list(s, z3.IntVal(0), z3.K(smt.I, VNone), "list")
+    outs = eng.exec_block([loop], s)
+    res = []
+    for o in outs:
+        if o.kind != "fall":
+            raise Unsupported("comprehension with non-local exit")
+        acc = o.st.env.vars.pop("_acc")
+        res.append((acc, o.st))
+    return res
 
 
 def _one(eng, e, gen, view, s, kind):
@@ -57,6 +112,8 @@ def _one(eng, e, gen, view, s, kind):
     i = fresh("ci", smt.I)
     body = s.copy()
     body.assume(i >= 0, i < n)
+    inr = z3.And(i >= 0, i < n)
+    hoisted = []
     base_len = len(body.pc)
     alloc0 = body.heap.alloc
     eng.raised.append([])
@@ -71,7 +128,7 @@ def _one(eng, e, gen, view, s, kind):
         cond_term = z3.BoolVal(True)
         for c in gen.ifs:
             rs = eng.ev(c, b)
-            t, _ = _merge(eng, base_len, [(SV(smt.VBool(eng.truth(s2, v)), "bool"), s2) for v, s2 in rs])
+            t, _ = _merge(eng, base_len, [(SV(smt.VBool(eng.truth(s2, v)), "bool"), s2) for v, s2 in rs], hoisted, inr)
             cond_term = z3.And(cond_term, smt.get_b(t))
         if isinstance(e, ast.DictComp):
             kres = eng.ev(e.key, b.copy())
@@ -79,23 +136,35 @@ def _one(eng, e, gen, view, s, kind):
             for _, s2 in kres + vres:
                 if not z3.eq(s2.heap.alloc, alloc0):
                     raise Unsupported("allocating comprehension body")
-            key_t, _ = _merge(eng, base_len, kres)
-            val_t, _ = _merge(eng, base_len, vres)
+            key_t, _ = _merge(eng, base_len, kres, hoisted, inr)
+            val_t, _ = _merge(eng, base_len, vres, hoisted, inr)
             elt_t, elt_ty = None, None
         else:
             eres = eng.ev(e.elt, b.copy())
             for _, s2 in eres:
                 if not z3.eq(s2.heap.alloc, alloc0):
                     raise Unsupported("allocating comprehension body")
-            elt_t, elt_ty = _merge(eng, base_len, eres)
+            elt_t, elt_ty = _merge(eng, base_len, eres, hoisted, inr)
     finally:
         raised = eng.raised.pop()
 
     # exceptions inside the body: raised for some position, otherwise excluded for all positions
     normal = s
+    n_pc = len(s.pc)
+    seen = set()
+    for f in hoisted:
+        # facts collected while evaluating the body for the symbolic position i hold for every position
+        if f.get_id() not in seen:
+            seen.add(f.get_id())
+            s.assume(z3.ForAll([i], f))
+    n_pc2 = len(s.pc)
     for r in raised:
-        extra = r.st.pc[len(s.pc):]
-        cond = z3.And(extra) if extra else z3.BoolVal(True)
+        cond, facts = split_pc(r.st, base_len, inr)
+        for f in facts:
+            if f.get_id() not in seen:
+                seen.add(f.get_id())
+                s.assume(z3.ForAll([i], f))
+        cond = z3.And(inr, cond)
         if not eng.feasible(s, cond):
             continue
         i0 = fresh("ci_raise", smt.I)
